@@ -53,7 +53,7 @@ static void build_ops()
 {
     X = symbol("x");
     Y = symbol("y");
-#define OP(n, body) OPS.push_back({n, [](const B &a, const B &b) -> B { body }})
+#define OP(n, ...) OPS.push_back({n, [](const B &a, const B &b) -> B { __VA_ARGS__ }})
     OP("add", return add(a, b););
     OP("sub", return sub(a, b););
     OP("mul", return mul(a, b););
@@ -164,13 +164,15 @@ int main(int argc, char **argv)
             {"pi", pi},
             {"oo", Inf},
             {"f(x)", function_symbol("f", X)}};
-    const long long NP = thorough ? POOL.size() : 12, NO = OPS.size();
+    const long long NP = thorough ? 12 : 7, NO = OPS.size();
     // programs: (seed pair) x (op1,dst1) x (op2,dst2 | none)
-    const long long n1 = NO * 2, n2 = NO * 2 + 1;
+    // quick: both instructions write r0 (dst fixed); thorough: every destination choice
+    const long long ND = thorough ? 2 : 1;
+    const long long n1 = NO * ND, n2 = NO * ND + 1;
     CaseSet cs;
     cs.name = "programs";
     cs.n = NP * NP * n1 * n2;
-    cs.hang_s = 60;
+    cs.hang_s = 30;
     cs.counter_names = {"programs_run", "programs_with_exception(refusal)", "allocation_balance_checked"};
     auto dec = [&](long long i) {
         Prog p;
@@ -180,10 +182,10 @@ int main(int argc, char **argv)
         i /= n1;
         p.seed_b = i % NP;
         p.seed_a = i / NP;
-        p.op1 = s1 / 2;
-        p.dst1 = s1 % 2;
-        p.op2 = s2 == n2 - 1 ? -1 : s2 / 2;
-        p.dst2 = s2 == n2 - 1 ? 0 : s2 % 2;
+        p.op1 = s1 / ND;
+        p.dst1 = s1 % ND;
+        p.op2 = s2 == n2 - 1 ? -1 : s2 / ND;
+        p.dst2 = s2 == n2 - 1 ? 0 : s2 % ND;
         return p;
     };
     cs.desc = [&](long long i) {
